@@ -321,3 +321,4 @@ _patch('C01', 'level_note', 'scope-exit drops, call protocol.', 'scope-exit drop
 _patch('C01', 'level_text', 'Unbounded proof', 'Block scopes (scopec unit, the real Compiler::scope / begin_scope / end_scope / drop_locals / drop_local_count / push_local / declare_local_variable / define_local_variable / declare_variable / define_variable / let_): a let is declare, initialiser (nil without one), define, in that order, a stack local only below module level; a declared local is exactly one new entry at the current depth (its slot is the old local count; a captured one gets its box), and leaving a block emits one Drop for every local the block declared, no more and no fewer, removes exactly those entries and pops the block table, so a block leaves the locals of its surroundings as they were. Unbounded proof')
 _patch('C01', 'level_note', 'scope-exit drops, the frame layout', 'module-level declarations (declare_module_variable / define_module_variable are stubs), the frame layout')
 _patch('C16', 'level_note', 'Native bodies: for 128 of the 131 natives', 'The kind test of the gate itself (sigkind unit: the real ParameterKind::is_valid admits exactly the values of the declared kind, Enumerator included). Native bodies: for 128 of the 131 natives')
+_patch('C07', 'level_text', 'Unbounded deductive proof,', 'A launched fiber starts with exactly the callee slot and the arguments of the call it was split from, in order (splitcopy unit: the stack-filling statements of the real Fiber::split; D38 found and fixed: slot 0 was the function, so launching a bound method or a class with an initialiser panicked the host). Unbounded deductive proof,')
